@@ -44,7 +44,8 @@ check("C10",
            "ALL 2^36 pairs in thorough; 17+3 named accessors; every non-basic reserved word, the invisible logogram and "
            "dynamic logograms must be refused; request histories: ALL ordered pairs over {specifiers, qualifiers} x {56 reserved "
            "words, invisible, dynamic} and all ordered triples over a reduced alphabet (every basic name in both families + 4/12 "
-           "others): each answer (value or refusal) must be what the name alone determines. distinct_nontrivial = non-empty subsets "
+           "others): each answer (value or refusal) must be what the name alone determines; | & ^ implies and the compound "
+           "assignments on all 64x64 pairs of (one-bit, two-bit) raw values over the full width of the representation. distinct_nontrivial = non-empty subsets "
            "enumerated.",
       text="The finite configuration space of the property is closed completely (unary laws in both tiers, binary "
            "laws in thorough) on the real Lexicon and the real header operators, against a bitmask reference model.",
@@ -75,7 +76,8 @@ check("C11",
            "request first / last} x {unrelated constructions interleaved / not}, on a fresh Lexicon: every prefix result is the "
            "node of get_qualified(union, T), qualifiers()==union, main_variant()==T and is not a Qualified, the empty set is "
            "refused at every stage and changes nothing; after each chain all 7 sets are requested directly over the same T, twice "
-           "(own node each, found again); plus all 7! orders of the seven direct requests over one type. distinct_nontrivial = "
+           "(own node each, found again); plus all 7! orders of the seven direct requests over one type and 84 keys (7 sets x 12 types) in one table under six "
+           "insertion orders. distinct_nontrivial = "
            "distinct (base, union, length) triples.",
       text="The complete space of qualification chains up to the bound is executed on the real type factory and "
            "compared with the normal form the interface documents.",
@@ -89,7 +91,9 @@ check("C13",
            "2 linkages, on 3 Lexicons alive at once (one after 100 unrelated constructions) and 1 created after they were "
            "destroyed; all 325+10 unordered pairs distinct; documented spelling; self-denoting; type typename; natural "
            "transfer; typing of the constants; every spelling->node route (identifier->as-type through both get_identifier "
-           "overloads, word/String->linkage, identifier->label, expression->decltype) returns the constant itself; same "
+           "overloads, word/String->linkage, identifier->label, expression->decltype) returns the constant itself, also on a Lexicon "
+           "with a hostile history (every spelling-keyed factory asked for the constants' spellings with other arguments and for near "
+           "misses first) and when the spelling is presented in a reused buffer that held another word of the same length; same "
            "addresses from every Lexicon. distinct_nontrivial = number of constants examined.",
       text="Complete enumeration of a finite configuration space on the real Lexicon against a hand-written table of "
            "documented spellings.",
@@ -247,7 +251,10 @@ check("C09",
            "designated sub-node's type, or both refuse with logic_error), and type() of every node re-read after the table was rebuilt "
            "with all 11 other rotations on the same Lexicon; (2) EVERY addition sequence of length <= 5 (quick) / <= 7 "
            "(thorough) over 3 element types for heterogeneous scopes (3 declaration kinds), parameter lists, expression lists, "
-           "enumerations, base lists: the Product obtained BEFORE the additions has exactly the current elements' types after each one.",
+           "enumerations, base lists -- and parameter lists whose parameters share a name (unnamed parameters): the Product obtained "
+           "BEFORE the additions has exactly the current elements' types after each one and every addition is a parameter of its own "
+           "with the type given; (3) every ordered pair and triple of function types from 3 signatures x {plain, C linkage, fastcall} "
+           "declared under one name: each declaration (and its id-expression) reports exactly the type it was given.",
       text="Complete enumeration of the factory table against per-row type rules, plus all addition sequences up to the "
            "bound on the real growing containers.",
       note="Exception equivalence: for borrowed types 'both sides refuse with logic_error' counts as agreement.",
